@@ -186,7 +186,7 @@ def execute_nw(case):
                 sig={"kind": "floor-ceil"}, detail=detail)
         zero_sel = (w == 0) & (cnt > 0)
         # the comb position (u0+0)/n == 0.0 is the breakpoint c=0 itself: either neighbour is accepted there
-        if np.any(zero_sel) and not (u0 / n == 0.0 and w[0] == 0 and cnt[0] == 1 and zero_sel.sum() == 1):
+        if np.any(zero_sel) and not (isinstance(u0, float) and u0 / n == 0.0 and w[0] == 0 and cnt[0] == 1 and zero_sel.sum() == 1):
             k = int(np.flatnonzero(zero_sel)[0])
             raise Violation(f"zero-weight index {k} selected {cnt[k]} times at u0={u0!r}",
                             sig={"kind": "zero-weight-selected"}, detail=detail)
@@ -202,6 +202,19 @@ def execute_nw(case):
                 f"systematic_resample({n}, w[{m}]) raised {type(e).__name__}: {e} at u0={u0!r} (sum(w)-1={delta:.3g})",
                 sig={"kind": "exception", "exc": type(e).__name__}, detail=detail) from e
         validate(idx, u0)
+    # the routine's own random_state argument (not scripted): whatever offset it draws, the result must obey the same laws
+    from tempest.tools import systematic_resample as _sr
+
+    st0 = np.random.get_state()
+    try:
+        for rs in (case["n"] * 7 + 1, 12345 + m):
+            idx = np.asarray(lib_call(_sr, n, _RAW.get(id(w), w).copy(), random_state=int(rs), what="systematic_resample(random_state=...)"))
+            validate(idx, f"<drawn with random_state={rs}>")
+            idx2 = np.asarray(_sr(n, _RAW.get(id(w), w).copy(), random_state=int(rs)))
+            if not np.array_equal(idx, idx2):
+                raise Violation(f"systematic_resample(random_state={rs}) is not reproducible", sig={"kind": "random-state"}, detail=detail)
+    finally:
+        np.random.set_state(st0)
     # exact unbiasedness: integrate the (piecewise constant) counts over u0
     expc = np.zeros(m)
     for i in range(len(edges) - 1):
